@@ -373,6 +373,9 @@ def fault_db():
             if kind != 'pragma':
                 f.tick('sql')
         db.conn.hook = hook
+        # the callbacks wn makes itself are the fault points; SQLite's own calls of the
+        # handler (none on a small database) are not counted in either mode
+        db.conn.progress_in_statements = False
     else:
         import wn
         import wn._db
